@@ -628,15 +628,49 @@ static void gen_alloc_base(struct scen *sc, struct rng *r)
 	sc->final_convergence = true;
 }
 
+/* small conversation whose incremental responses fail half way (withdrawal of an unknown record, duplicate
+ * announcement): the client has to take back what it applied, and taking back a withdrawal allocates - with few
+ * allocations in the whole conversation every single one of them, including those, is failed in turn */
+static void gen_alloc_undo_base(struct scen *sc, struct rng *r)
+{
+	scen_defaults(sc, r);
+	sc->np = 60;
+	sc->nk = 10;
+	sc->init_records = 30 + (int)rndn(r, 10);
+	sc->init_keys = 6;
+	sc->cfg.refresh = 30 + rndn(r, 50);
+	sc->cfg.retry = 1 + rndn(r, 5);
+	sc->cfg.expire = 600 + rndn(r, 600);
+	sc->cfg.chunk_rx = CH_MAX;
+	sc->cfg.chunk_tx = CH_MAX;
+	for (int i = 0; i < 6; i++)
+		sc->cfg.xplan[i].pos = -1;
+	add_event(&sc->cfg, 5, 1, 16);
+	sc->cfg.xplan[1].defect = D_WITHDRAW_UNKNOWN;
+	add_event(&sc->cfg, (time_t)sc->cfg.refresh + 10, 1, 16);
+	sc->cfg.xplan[3].defect = D_DUP_ANNOUNCE;
+	add_event(&sc->cfg, 2 * (time_t)sc->cfg.refresh + 20, 1, 16);
+	sc->cfg.xplan[5].defect = rndp(r, 1, 2) ? D_WITHDRAW_UNKNOWN : D_DUP_ANNOUNCE;
+	sc->cfg.nxplan = 6;
+	sc->final_convergence = true;
+}
+
+static long ALLOC_UNDO_ONLY; /* argument undo_only=1: rollback conversations only (C03's own run) */
+static long ALLOC_BASE_ID;
+
 static void gen_allocsync(struct scen *sc, struct rng *r, long c, uint64_t seed)
 {
-	long base_id = c / 1024, slot = c % 1024;
+	long base_id = ALLOC_UNDO_ONLY ? 2 * (c / 1024) + 1 : c / 1024, slot = c % 1024;
 	struct rng rb;
 	static struct sim dry;
 
 	(void)r;
+	ALLOC_BASE_ID = base_id;
 	rng_seed(&rb, seed ^ 0xa110c, (uint64_t)base_id);
-	gen_alloc_base(sc, &rb);
+	if (base_id % 2)
+		gen_alloc_undo_base(sc, &rb);
+	else
+		gen_alloc_base(sc, &rb);
 	if (slot >= 1000) {
 		/* failure-free variants: leak accounting, incl. rtr_stop at the k-th cancellation point */
 		ALLOC_FAIL_AT = 0;
@@ -659,7 +693,7 @@ static void gen_allocsync(struct scen *sc, struct rng *r, long c, uint64_t seed)
 	unsigned long n = ALLOC_REQUESTS ? ALLOC_REQUESTS : 1;
 
 	ALLOC_FAIL_AT = 1 + (unsigned long)slot * n / 1000;
-	cnt_max("max:c18/sync/allocations_in_base_conversation", n);
+	cnt_max(base_id % 2 ? "max:c18/sync/allocations_in_rollback_conversation" : "max:c18/sync/allocations_in_base_conversation", n);
 }
 
 /* ------------------------------------------------------------------ C04: byte-stream fuzzing */
@@ -1088,6 +1122,7 @@ int main(int argc, char **argv)
 	long from = atol(argv[3]), to = atol(argv[4]);
 
 	VO.max_samples = 2;
+	ALLOC_UNDO_ONLY = argkv_l(argc, argv, "undo_only", 0);
 	vo_open(argv[5]);
 	for (long c = from; c < to; c++) {
 		struct rng r;
@@ -1121,7 +1156,7 @@ int main(int argc, char **argv)
 			SIM_ALLOC_PAUSE = &AM.paused;
 			gen_allocsync(&sc, &r, c, seed);
 			CNT("sim/scenarios");
-			run_scen(&sc, mix64(seed, (uint64_t)(c / 1024)), NULL);
+			run_scen(&sc, mix64(seed, (uint64_t)ALLOC_BASE_ID), NULL);
 			continue;
 		} else if (!strcmp(mode, "ivinit")) {
 			intervals_init_case(c);
